@@ -36,6 +36,7 @@ class Prog:
     loop_bound: int | None = None
     ref_paths: int = 64
     storage_symbolic: bool = False
+    cheats: bool = False  # the reference runs with the Foundry cheatcode spec (lib/foundry_spec.py)
     known_preimages: tuple = ()  # byte strings whose keccak appears as a constant in the code (A2 instances)
     script: object = None  # fault script for the branching solver (C02)
     script_name: str = ""
@@ -136,6 +137,10 @@ def _alarm(*_):
 
 def run_ref(p: Prog, inp: Inputs, oracle=None, solver_timeout_ms=1000):
     ev = refevm.RefEVM(block=BLOCK, solver_timeout_ms=solver_timeout_ms, loop_bound=p.loop_bound, max_paths=p.ref_paths)
+    if p.cheats:
+        from lib import foundry_spec
+
+        ev.cheat = foundry_spec.Cheats()
     accounts = {a: refevm.Account(c, refevm.empty_storage(), refevm.empty_storage()) for a, c in p.contracts.items()}
     bal = z3.K(z3.BitVecSort(160), bv(0))
     for a, v in inp.balance_items():
